@@ -426,6 +426,13 @@ func c04Metadata(r *core.Run, idx int, rng *rand.Rand) {
 	}
 	c14n := c14nClass(signedTexts, signedAttrs)
 	class := fmt.Sprintf("metadata,%s,alg=%s", c14n, o.MetaSigAlg[strings.LastIndexAny(o.MetaSigAlg, "#")+1:])
+	if v := []string{"", "true", "1", "yes"}[idx%4]; v != "" {
+		// the document is asked for with every name the library's source mentions as a parameter and as a header, all set
+		// to a switch-like value: however it is rendered then, what is signed is what is sent
+		e.ExtraQuery, e.ExtraHeaders = dictQueryWith(v), dictHeadersWith(v)
+		class += ",asked_with_named_parameters=" + v
+		r.Count("metadata_documents_asked_for_with_named_parameters", 1)
+	}
 	mv := fetchMeta(e, env.PathMetadata, host, nil)
 	desc := map[string]any{"organisation": o.Org, "contact": o.Contact, "host": host, "sig_alg": o.MetaSigAlg}
 	viol := func(clause, reason string) {
